@@ -11,10 +11,12 @@
 //!   RXS <A|S> <rate> <op> ...          simulator, C16 oracle applies
 //!   RXQ <A|S> <rate> <op> ...          simulator, corner cases of the simulator itself (differential only)
 //!        op      = Xt@<micros>=<tel> | Xt@<micros>=G<0|1>/<hex>   sender PHY transmits (telegram: transmit_telegram, G: transmit_data)
+//!                | Xt@<micros>=H<k>/<tel> | Xt@<micros>=L<k>/<tel>  the first k bytes / the bytes from k on of the frame, through transmit_data
 //!                | Xr@<micros>=...                                the receiving PHY itself transmits
+//!                | Zr@<micros> | Zt@<micros>                      receiver / sender calls transmit_telegram with a closure that sends nothing
 //!                | P@<micros> | F@<micros>                        receiver polls (F: late enough that everything sent has arrived)
 //! Result: per poll `P | <telegram> ! <is_last> | ... | r <telegram|-> | p <pending>`, per transmission `X <n> <expects|->`
-//! resp. `R <n>`, joined by ` ; `; `PANIC <loc>` ends the line.
+//! resp. `R <n>`, `N` for a transmit call that sent nothing, joined by ` ; `; `PANIC <loc>` ends the line.
 use crate::codec::{all_fcs, fc_str, parse_fc, ref_frame, telegram_str};
 use crate::util::*;
 use profirust::fdl::*;
@@ -223,13 +225,31 @@ pub fn run_case(line: &str) -> String {
                         tx.set_bus_time(now);
                         poll(&mut rx, now, all)
                     }
+                    "Zr" | "Zt" => {
+                        let phy = if kind == "Zr" { &mut rx } else { &mut tx };
+                        guarded(|| {
+                            phy.set_bus_time(now);
+                            match phy.transmit_telegram(now, |_| None) {
+                                None => "N".to_string(),
+                                Some(r) => format!("X {} {}", r.bytes_sent(), opt_str(r.expects_reply())),
+                            }
+                        })
+                    }
                     _ => {
                         let arg = arg.unwrap();
                         let phy = if kind == "Xr" { &mut rx } else { &mut tx };
                         guarded(|| {
                             phy.set_bus_time(now);
-                            if arg.starts_with('G') {
-                                let data = unhex(arg.split_once('/').unwrap().1);
+                            if arg.starts_with('G') || arg.starts_with('H') || arg.starts_with('L') {
+                                let (hd, body) = arg.split_once('/').unwrap();
+                                let data = if arg.starts_with('G') {
+                                    unhex(body)
+                                } else {
+                                    let k: usize = hd[1..].parse().unwrap();
+                                    let f = tel_bytes(&parse_tel(body));
+                                    let k = k.min(f.len());
+                                    if arg.starts_with('H') { f[..k].to_vec() } else { f[k..].to_vec() }
+                                };
                                 let n = phy.transmit_data(now, |b| {
                                     b[..data.len()].copy_from_slice(&data);
                                     (data.len(), data.len())
@@ -649,6 +669,7 @@ pub fn gen(seed: u64, thorough: bool, out: &mut dyn FnMut(String)) {
         let mut sent = 0usize;
         for j in 0..n {
             let garbage = rng.chance(1, 6);
+            let split_tel: Option<Vec<u8>>;
             let (tok, len) = if garbage {
                 let must;
                 let bytes: Vec<u8> = if rng.chance(1, 2) {
@@ -663,25 +684,55 @@ pub fn gen(seed: u64, thorough: bool, out: &mut dyn FnMut(String)) {
                     f[n - 2] = f[n - 2].wrapping_add(1);
                     f
                 };
+                split_tel = None;
                 (format!("G{}/{}", must as u8, hex(&bytes)), bytes.len())
             } else {
                 let k = random_kind(&mut rng);
                 let k = if rng.chance(1, 2) { k.min(4) } else { k };
                 let tel = random_tel(&mut rng, &fcs, k);
+                split_tel = Some(tel_bytes(&tel));
                 (tel_token(&tel), tel_bytes(&tel).len())
             };
-            ops.push(format!("Xt@{}={}", t, tok));
+            // a telegram may be sent in two pieces (two transmissions with an idle bus in between)
+            let split_at = match &split_tel {
+                Some(f) if f.len() >= 2 && rng.chance(1, 3) => {
+                    let k = 1 + rng.below(f.len() as u64 - 1) as usize;
+                    let bad = |piece: &[u8]| matches!(Telegram::deserialize(piece), Some(Ok((_, n))) if n != piece.len());
+                    if bad(&f[..k]) || bad(&f[k..]) { None } else { Some(k) }
+                }
+                _ => None,
+            };
+            let pieces: Vec<(String, usize)> = match split_at {
+                Some(k) => vec![(format!("H{}/{}", k, tok), k), (format!("L{}/{}", k, tok), len - k)],
+                None => vec![(tok.clone(), len)],
+            };
             sent += 1;
-            let dur = b2t(rate, len as u64 * 11);
-            let gap = b2t(rate, 33 + rng.below(200)) + 2;
-            // polls during the transmission and in the gap
-            let np = rng.below(5);
-            let mut pts: Vec<i64> = (0..np).map(|_| t + rng.below((dur + gap) as u64 + 1) as i64).collect();
-            pts.sort();
-            for pt in pts {
-                ops.push(format!("P@{}", pt));
+            if j == 0 && rng.chance(1, 8) {
+                ops.push(format!("Zr@{}", t));
             }
-            t += dur + gap;
+            for (ptok, plen) in pieces {
+                ops.push(format!("Xt@{}={}", t, ptok));
+                let dur = b2t(rate, plen as u64 * 11);
+                let gap = b2t(rate, 33 + rng.below(200)) + 2;
+                // polls during the transmission and in the gap; transmit calls that send nothing while the bus is idle
+                let np = rng.below(5);
+                let mut evs: Vec<(i64, String)> = (0..np)
+                    .map(|_| {
+                        let pt = t + rng.below((dur + gap) as u64 + 1) as i64;
+                        (pt, format!("P@{}", pt))
+                    })
+                    .collect();
+                let nz = *rng.pick(&[0u64, 0, 1, 1, 2]);
+                for _ in 0..nz {
+                    let zt = t + dur + 2 + rng.below((gap - 2) as u64 + 1) as i64;
+                    evs.push((zt, format!("{}@{}", if rng.chance(5, 6) { "Zr" } else { "Zt" }, zt)));
+                }
+                evs.sort_by_key(|e| e.0);
+                for (_, e) in evs {
+                    ops.push(e);
+                }
+                t += dur + gap;
+            }
             if garbage || rng.chance(1, 3) {
                 // by now everything sent has arrived
                 ops.push(format!("F@{}", t));
@@ -756,6 +807,10 @@ pub fn gen(seed: u64, thorough: bool, out: &mut dyn FnMut(String)) {
             }
             for pt in pts {
                 ops.push(format!("P@{}", pt));
+                if rng.chance(1, 10) {
+                    // a transmit call that sends nothing: panics while somebody is still sending
+                    ops.push(format!("{}@{}", if rng.chance(1, 2) { "Zr" } else { "Zt" }, pt));
+                }
             }
             t += dur + gap.max(0);
             match rng.below(40) {
